@@ -145,7 +145,7 @@ theorem name_free_after_remove {c : Ctx} (h : WF c) (ha : c.active = true) {o : 
 
 example : ∃ c o, c = run (Ctx.init true) [.start false false, .make .instr 2 true false false .loop, .iopen 2] ∧
     WF c ∧ c.active = true ∧ o ∈ c.mgrs ∧ o.name = 2 :=
-  ⟨_, ⟨1, 2, .instr, false, .loop, true, .ready⟩, rfl, wf_run (wf_init _) _, by decide, by decide, rfl⟩
+  ⟨_, ⟨1, 2, .instr, false, .loop, true, .ready, false⟩, rfl, wf_run (wf_init _) _, by decide, by decide, rfl⟩
 
 
 /-! ## stop: every remaining object released exactly once; all threads and connections end -/
